@@ -20,7 +20,7 @@ pub fn join_handle(handle: JoinHandle, epoch: &mut Ghost<nat>) -> (r: core::resu
 pub struct ConnectionState { pub id: Ghost<int> }
 pub struct HandlerGuardStub { pub exit_events: Ghost<nat> }
 impl HandlerGuardStub {
-    // assumed: ENV VhostUserHandler::send_exit_event raises every worker's exit event (handler.rs: loop over handlers; the counter records the call)
+    // proved-by: verus unit exitev (VhostUserHandler::send_exit_event writes every worker's exit eventfd exactly once, in worker order; the worker registered that event with id num_queues in VringEpollHandler::new); the counter records the call
     #[verifier::external_body]
     pub fn send_exit_event(&mut self) ensures final(self).exit_events@ == old(self).exit_events@ + 1 { unimplemented!() }
 }
